@@ -1362,7 +1362,7 @@ def cases(tier, rng):
                 ts_.append(ts_[-1] + d_)
             yield {"stream": "small-scope", "op": "tsrate", "ts": ts_[:n_]}
     r = rng.fork("c05-tsrate")
-    for i in range(60 if quick else 2000):
+    for i in range(60 if quick else 1000):
         sub = r.fork(i)
         step = sub.choice([1, 3, 55, 1000, 12800, sub.randint(1, 10**9)])
         n_ = sub.randint(2, 12)
@@ -1391,10 +1391,10 @@ def cases(tier, rng):
         a = base + sub.randint(-2, 12)
         b = base + sub.randint(-2, 14)
         yield {"stream": "random", "op": "cal", "times": times, "start": a, "stop": b, "subseed": i}
-    for i in range(2000 if quick else 100000):
+    for i in range(2000 if quick else 60000):
         sub = r.fork(("dt", i))
         yield {"stream": "random", "op": "dt", "dt": sub.choice([sub.randint(1, 10**5), sub.randint(1, 10**9), sub.randint(1, 10**7)]), "subseed": i}
-    for i in range(600 if quick else 20000):
+    for i in range(600 if quick else 8000):
         # periods up to 2^50 (the range of period_round_trip) and arbitrary stored rates, incl. rates whose period
         # is (nearly) half-way between two integers
         sub = r.fork(("dtbig", i))
@@ -1453,7 +1453,7 @@ def cases(tier, rng):
                         if a < b and c < d_ and (not quick or (a + b + c + d_) % 3 == 0):
                             yield {"stream": "small-scope", "op": "cropread2", "src": e, "crop": [a, b], "crop2": [c, d_]}
     r = rng.fork("c05-dset")
-    for i in range(300 if quick else 6000):
+    for i in range(300 if quick else 3000):
         sub = r.fork(i)
         kind = sub.choice(["cont", "cont", "ts", "tags"])
         base = sub.choice([0, 1_600_000_000_000_000_000])
@@ -1497,7 +1497,7 @@ def cases(tier, rng):
                     groups = [({} if g == "absent" else {"Force 1x": g}) for g in (g1, g2)]
                     yield {"stream": "small-scope", "op": "calchan", "groups": groups, "ch": "Force 1x", "src": e, "win": w}
     r = rng.fork("c05-calchan")
-    for i in range(200 if quick else 4000):
+    for i in range(200 if quick else 2000):
         sub = r.fork(i)
         base = sub.choice([0, 1_600_000_000_000_000_000])
         dt = sub.choice([1, 3, 10, 55])
